@@ -147,6 +147,18 @@ func TestExploreOne(t *testing.T) {
 		for _, f := range e.Found {
 			fmt.Printf("  %s: %s\n", f.V.Key(), f.V.Msg)
 		}
+		if os.Getenv("MC_DUMP_POINTS") != "" {
+			x := RunExecution(t, it.Scenario, func(step int, en []string) string { return en[0] }, &funcMon{}, ExecOpts{})
+			for i, p := range x.Points {
+				fmt.Printf("   %d: %v -> %s (runningEnabled=%v)\n", i, p.Enabled, p.Chosen, p.RunningEnabled)
+			}
+		}
+		if os.Getenv("MC_DUMP_SAMPLE") != "" && e.Sample != nil {
+			fmt.Println("default schedule:", strings.Join(e.Sample.Choices, " | "))
+			for _, ev := range e.Sample.Events {
+				fmt.Println("   ", ev)
+			}
+		}
 	}
 }
 
